@@ -45,6 +45,10 @@ type Config struct {
 	NAccounts        int  `json:"n_accounts"`
 	NBrowsers        int  `json:"n_browsers"`
 	WholeSecondClock bool `json:"whole_second_clock"`
+	// ExpireLate (C09 only): the site first runs without the expire module;
+	// the first restart is the deployment that adds it, so sessions exist
+	// that were established without an activity stamp
+	ExpireLate bool `json:"expire_late,omitempty"`
 	// AppLogoutHook: the application registers an After(EventLogout) handler
 	// that answers the request itself (a redirect to a single-sign-out page)
 	AppLogoutHook bool `json:"app_logout_hook,omitempty"`
